@@ -152,6 +152,7 @@ def run(rep, drv):
 			bad('generate_demand', '; '.join(errs[:3]), case, py=[str(d), str(calls)[:300]], mo=mo)
 
 	# ---- reported moments / cdf vs the distribution object and vs the definition ----
+	alive = {}
 	for k in range(N // 2):
 		try:
 			with warnings.catch_warnings():
@@ -207,6 +208,14 @@ def run(rep, drv):
 					for x in (L * float(F(spec['lo'])) + 0.3, L * (float(F(spec['lo'])) + float(F(spec['hi']))) / 2):
 						mo = float(unfr(drv.call('sumcu', n=L, lo=spec['lo'], hi=spec['hi'], xs=[fr(x)])[0]))
 						if not close(ltd.cdf(x), mo, 1e-9): errs.append('lead-time demand cdf(%r)=%r, Irwin-Hall gives %r' % (x, ltd.cdf(x), mo))
+				# distributions handed out earlier stay what they were, however many are requested afterwards (from this or another source)
+				for sp0, L0, d0, m0, x0, c0 in alive.get(ty, []):
+					if not (close(d0.mean(), m0, 1e-12) and close(d0.cdf(x0), c0, 1e-12)):
+						errs.append('the lead-time demand distribution (L=%d) of %s, requested earlier, changed after a later one was requested: mean %r -> %r, cdf(%r) %r -> %r' % (
+							L0, sp0, m0, d0.mean(), x0, c0, d0.cdf(x0)))
+						break
+				x_q = float(ltd.mean()) - 0.4 * float(ltd.std())
+				alive[ty] = (alive.get(ty, []) + [(str(spec), L, ltd, float(ltd.mean()), x_q, float(ltd.cdf(x_q)))])[-2:]
 				if errs:
 					bad('moments', '; '.join(errs[:3]), dict(spec, L=L))
 		except Exception as e:
